@@ -28,10 +28,67 @@ func SetDevelopmentMode(b bool) { developmentMode = b }
 func SetDevelopmentMode(b bool) { developmentMode = b }
 ''', 'cmd/templ/generatecmd/watcher/zz_verif_export.go': '''package watcher
 
+import (
+	"context"
+	"regexp"
+
+	"github.com/fsnotify/fsnotify"
+)
+
 // Loop runs the event loop (coalescing of file system events) of a watcher built with
 // NewRecursiveWatcher; Recursive starts it on a real fsnotify watcher.
 func (w *RecursiveWatcher) Loop() { w.loop() }
+
+// VerifWatcher, when set, is the source of raw file system events that VerifRecursive uses
+// instead of a watcher of the operating system.
+var VerifWatcher *fsnotify.Watcher
+
+// VerifRW is what VerifRecursive returns: the one thing its caller does with it is Close.
+type VerifRW struct{ close func() error }
+
+func (v *VerifRW) Close() error { return v.close() }
+
+// VerifRecursive stands in for Recursive (prep renames the call in cmd.go).
+func VerifRecursive(ctx context.Context, path string, watchPattern *regexp.Regexp, out chan fsnotify.Event, errors chan error) (*VerifRW, error) {
+	if VerifWatcher == nil {
+		rw, err := Recursive(ctx, path, watchPattern, out, errors)
+		if err != nil {
+			return nil, err
+		}
+		return &VerifRW{close: rw.Close}, nil
+	}
+	lctx, cancel := context.WithCancel(ctx)
+	rw := NewRecursiveWatcher(lctx, VerifWatcher, watchPattern, out, errors)
+	go rw.loop()
+	return &VerifRW{close: func() error { cancel(); return nil }}, nil
+}
+''', 'cmd/templ/generatecmd/run/zz_verif_export.go': '''package run
+
+import (
+	"context"
+	"os/exec"
+)
+
+// VerifRunHook, when set, is called instead of starting the user's command.
+var VerifRunHook func(ctx context.Context, workingDir, input string) error
+
+// VerifRun stands in for Run (prep renames the calls in cmd.go).
+func VerifRun(ctx context.Context, workingDir, input string) (*exec.Cmd, error) {
+	if VerifRunHook != nil {
+		return nil, VerifRunHook(ctx, workingDir, input)
+	}
+	return Run(ctx, workingDir, input)
+}
+
+// VerifKillAll stands in for KillAll.
+func VerifKillAll() error {
+	if VerifRunHook != nil {
+		return nil
+	}
+	return KillAll()
+}
 '''},
+        'callrename': [('cmd/templ/generatecmd', 'watcher.Recursive=VerifRecursive,run.Run=VerifRun,run.KillAll=VerifKillAll')],
     },
     'gen': {
         'pkg': 'zzverif/worlds/gen',
@@ -197,11 +254,15 @@ PROPS = {
                 'script-string and comment positions; reorder / insert / delete of nodes; Go expression changes), generates every variant with the working tree generator and '
                 'compiles all of them into the world. One run = one family and a tape-driven history of edit / watch (real FSEventHandler) / advance fake clock / render / restart app / '
                 'restart watcher / unparseable edit; whenever the handler has seen the latest edit and the TTL has passed, dev-mode output of the compiled variant must equal the normal '
-                'output of the edited variant for six argument sets. distinct = event-log hash; non-trivial = at least one edit',
+                'output of the edited variant for six argument sets. Faults: a save landing while the handler is at work or while the program is loading its text file, text files unreachable for a while, '
+                'a text file cut short by a failed write, app and watcher restarts. Every fifth run is the pipeline world instead: the real Generate.Run in watch mode with --cmd '
+                '(walk, watcher loop, worker pool, post-generation collector) on raw file system events supplied by the world, saves of variants with fake-clock times, workers held '
+                'before they report; two seconds after the last save the generated Go code on disk must equal, literals and source positions aside, what the running command was built from. '
+                'distinct = event-log hash; non-trivial = at least one edit',
         'real': ['FSEventHandler.HandleEvent/generate (text file writing, hash suppression, GoUpdated/TextUpdated)', 'generator.HasChanged', 'runtime.WriteString development-mode path with its mtime/TTL cache',
-                 'generated code of every variant (working tree generator)', 'parser'],
+                 'generated code of every variant (working tree generator)', 'parser', 'pipeline world: generatecmd.(*Generate).Run in watch mode (walk, watcher.loop, workers, post-generation collector)'],
         'stubbed': ['clock (synctest fake clock)', 'the source file (simos overlay: content + mtime from the fake clock)', 'the editor', 'rebuild+restart of the app and restart of the watcher (model)',
-                    'fsnotify itself (half of the runs feed raw Write events into the real watcher.loop through a backend-less fsnotify.Watcher value, so its 100 ms coalescing runs on the fake clock); the post-generation debounce in cmd.go is not run'],
+                    'fsnotify itself (half of the runs feed raw Write events into the real watcher.loop through a backend-less fsnotify.Watcher value, so its 100 ms coalescing runs on the fake clock); the post-generation collector of cmd.go runs in the pipeline world only)', 'pipeline world: the operating system\'s file watcher (raw events come from the world) and the user\'s command (a stand-in records each (re)start)'],
         'assumptions': ['two saves never share an mtime tick (the model advances the fake clock by 1 ms before every write)', 'renders sooner than 2 s after the text file was written are only required to equal some variant the text file has held since the build (the implementation caches for 100 ms; the statement sets no bound and the oracle does not mirror the constant)', 'the coalesced event for a save must come out of the watcher loop within 2 s',
                         'a restarted watcher handles every file once and the program is rebuilt, as the initial walk of templ generate --watch does'],
     },
